@@ -249,6 +249,27 @@ Proof.
 Qed.
 Print Assumptions C18_validation_reaches_every_block.
 
+(** Every OPTION (non-block hcl field) of every block: its block has a validate method, and validate looks at the option
+    (directly or through a method of the same type), or the option is a boolean, or it carries a reviewed reason why any
+    value is acceptable; no reviewed reason is stale.  128 options in the current source, 36 reviewed (free-text
+    comments, literal lists, URIs whose failure is a request error, integers replaced by defaults, and the two options
+    that ARE parsed later but never validated — match.keep_firing_for and gitlab.timeout — whose dropped error only
+    yields a zero value).  A NEW option that validate does not look at breaks this theorem until it is reviewed. *)
+Theorem C18_every_option_is_validated_or_reviewed :
+  (forall a, In a config_attrs ->
+     In (ca_struct a) validate_methods /\
+     (attr_mentioned a = true \/ ca_type a = "bool" \/ attr_reviewed a = true)) /\
+  (forall r, In r unvalidated_attrs -> unvalidated_row_live r = true).
+Proof.
+  split.
+  - intros a Hin. pose proof (proj1 (forallb_forall _ _) all_attrs_accounted a Hin) as H. unfold attr_ok in H.
+    apply andb_true_iff in H. destruct H as [Hm H]. split; [apply mem_str_In; exact Hm|].
+    apply orb_true_iff in H. destruct H as [H|H]; [|right; right; exact H].
+    apply orb_true_iff in H. destruct H as [H|H]; [left; exact H | right; left; apply String.eqb_eq; exact H].
+  - exact (proj1 (forallb_forall _ _) no_stale_attr_rows).
+Qed.
+Print Assumptions C18_every_option_is_validated_or_reviewed.
+
 (** Non-vacuity: the tables are populated, contain validated rows of every mechanically checked kind, and the schema
     contains the rule-level blocks the property talks about. *)
 Example C18_nonvacuous :
